@@ -435,3 +435,18 @@ RULES.append(('10.M', 'collection mutations: every reviewed (function, stored co
 RULES.append(('10.E', 'event replay: the count of events drained from pending_events (ChannelManager, ChannelMonitor, ChainMonitor; sync and async expansions) is advanced only on the Ok arm of the handler result - an event whose handler failed stays queued and is replayed (rules/eventloops.py)', lambda F: eventloops.rule(F, '10.E', r'.', 5)))
 RULES.append(('10.G', 'guard census: no reviewed call of a workspace function and no reviewed mutation of a stored collection gained a controlling branch condition (an added `&& cond`, early return / continue, more specific match arm in front of an act); counts per call site, name free (rules/guards.py)', lambda F: guards.for_property(F, 'C10', '10.G')))
 RULES.append(('10.K', 'constant census of linear forms: every comparison (normalised to sum >= K over name-free atoms, a comparison and its negation being one form) and every maximal arithmetic expression of a reviewed function keeps its coefficients and its constant - a dropped or added `+ 1` / `- 1`, `<` for `<=` inside a computed bound, a scale factor applied twice or not at all, swapped operands of a comparison (rules/linforms.py; shapes that appear or disappear are not judged, the guard / arithmetic censuses judge those)', lambda F: linforms.for_property(F, 'C10', '10.K')))
+
+def r10n(F):
+	"""a restart is a disconnect the peer also saw: FundedChannel::write stores the channel as the peer will see it after reconnecting - inbound
+	HTLCs the peer announced but did not commit are dropped AND the inbound HTLC id counter is reduced by their number, an announced inbound fee
+	update is dropped - exactly what the in-memory disconnect path does.  A snapshot taken between update_add_htlc and commitment_signed that keeps
+	the unreduced counter rejects the peer's (correct) retransmission after the restart with "Remote skipped HTLC ID" and force-closes a channel
+	that was in sync: resuming at that crash point is not safe.  Same structural rules as 12.g, judged here for C10."""
+	import C12
+	out = []
+	for r in C12.r12g(F):
+		r.rule = '10.n'
+		out.append(r)
+	return out
+
+RULES.append(('10.n', 'the persisted channel equals the channel after the disconnect a restart implies (inbound HTLC id counter reduced by the dropped uncommitted HTLCs, announced fee update dropped) - so that the peer\'s retransmission after a restart from a snapshot taken mid-update is accepted', r10n))
